@@ -1,0 +1,12 @@
+//go:build verif
+// +build verif
+
+// Contracts for deductive verification (govc, /verif). Comment-only file: it
+// adds no code to the package with or without the build tag.
+
+package chained_bft
+
+//@ func DefaultSaftyRules.CalVotesThreshold
+//@   property C14
+//@   requires sum_pos: sum >= 1
+//@   ensures  threshold: result == (input >= sum - (sum-1)/3 - 1)
